@@ -365,7 +365,7 @@ def translate_fragment(src_text: str, spec: dict) -> str:
                 _visit(ch)
 
         _visit(stmts[0])
-        if len(hits) != 1:
+        if not hits or len({ast.unparse(h) for h in hits}) != 1:  # several textually identical occurrences are one expression
             raise TranslateError(f"pick pattern {spec['pick']!r} matched {len(hits)} sub-expressions")
         body = tr.coerce(tr.expr(hits[0]), spec["ret"])
         return f"Definition {spec['name']} {args} : {COQ_TY[spec['ret']]} :=\n  {body}.\n"
